@@ -59,6 +59,9 @@ def run(tier, seed, verdict):
     cov["sanitizer"] = {"asan_runs": res.san_runs["asan"], "tsan_runs": res.san_runs["tsan"],
                         "tsan_reports": res.tsan_reports}
     cov["evaluations"] += st.get("rounds_total", 0)
+    cov["rule"] += (" After every fault-free scenario a handle-ownership probe overwrites, moves and drops never-started "
+                    "task<> objects and checks through a by-value frame parameter (and LeakSanitizer) that each frame was "
+                    "destroyed exactly once.")
     cov["rule"] += (" Multi-threaded part (harness/src/coromt.cpp): each round runs a seeded task tree (depth<=2, timers, "
                     "nested tasks awaited directly and through then(), at_coroutine_exit actions, optionally a final "
                     "one-hour timer that only a delivered stop can end) on timed context A under "
